@@ -1,5 +1,5 @@
 # replay of a bounded stand-in violation (C16): re-run native/c16_states.py
 import sys
-print('n=2 pure=True gaussian: quad_expectation(1,0.8) = [-0.03659, 1.17149] on fock, [0.6112, 0.88505] on gaussian')
+print('n=2 pure=False cat-complex: quad_expectation(0,0.0) = [-0.02052, 0.6752] on bosonic, [-0.02052, 1.74967] on fock')
 print('REPLAY-VIOLATION')
 sys.exit(1)
